@@ -86,12 +86,15 @@ Definition allowed (f : facts) (c : cfg) (p : plan)
   match p_kind p with
   | KRaise e => [(ORaised (expected_class f c p e), false)]
   | KExit =>
-      let held := [(ORaised E_FSE, true); (OHang, true)] in
-      match p_j p with
-      | Some _ => held                 (* died inside the locked region *)
-      | None => (ORaised E_FSE, false) :: held   (* a sibling may be
-                                          terminated inside one *)
-      end
+      if f_fin_free f then [(ORaised E_FSE, false)]
+      else
+        (* the code before the D8 repair *)
+        let held := [(ORaised E_FSE, true); (OHang, true)] in
+        match p_j p with
+        | Some _ => held               (* died inside the locked region *)
+        | None => (ORaised E_FSE, false) :: held   (* a sibling may be
+                                            terminated inside one *)
+        end
   end.
 
 Definition observe (s : state) : outcome * bool :=
